@@ -76,9 +76,17 @@ int main(int argc, char ** argv) {
         std::vector<Tok *> mine2;
         while (!stop && (ss >> op)) {
             bool async = op[0] == '&';
-            if (async) op = op.substr(1);
+            // '%': as '&', but the history goes on at once — the next call RACES with this one (used with abort())
+            bool racing = op[0] == '%';
+            if (async || racing) op = op.substr(1);
             long a = op.size() > 1 ? strtol(op.c_str() + 1, nullptr, 10) : 0;
             char c = op[0];
+            if (racing) {
+                pend_done = false;
+                pend_active = true;
+                pend = std::thread([&, c, a] { pend_res = " &" + do_op(c, a, mine2); pend_done = true; });
+                continue;
+            }
             if (async) {
                 pend_done = false;
                 pend_active = true;
